@@ -588,7 +588,9 @@ OCar(e) ==
             ELSE tun
   /\ ws' = IF e.what \in {"fail", "ctxdone", "marshalfail"} THEN AllLocal("tunnel") ELSE ws
   /\ QOff
-  /\ UNCHANGED <<cfg, rp, bad, now, meta>>
+  \* the library broke the usage contract of the gRPC stream that carries the tunnel
+  /\ bad' = bad \cup Flag(e.what = "contract", "carrier.contract", 0)
+  /\ UNCHANGED <<cfg, rp, now, meta>>
 
 OTun(e) ==
   /\ tun' = CASE e.what = "started"   -> [ tun EXCEPT !.started = TRUE, !.chid = IF "ch" \in DOMAIN e THEN e.ch ELSE @ ]
@@ -1035,6 +1037,11 @@ C17_CallerSeesCarryingChannel ==
   BothReal => \A r \in ORpcs : /\ ((rp[r].idC /\ tun.chid # 0) => rp[r].chctx = tun.chid)
                                  /\ ((rp[r].hasChopt /\ tun.chid # 0) => rp[r].chopt = tun.chid)
 
+\* ---- C15 ---------------------------------------------------------------------
+\* the library itself uses the stream that carries the tunnel as gRPC requires (one SendMsg at a time, no
+\* CloseSend while a SendMsg is in progress): reported by the carrier
+C15_TransportContract == ~BadHas("carrier.contract")
+
 \* ---- C08 (stale ids) -------------------------------------------------------
 C08_StaleIdEndsTunnel == C09_SrvTunnelLevel
 
@@ -1080,6 +1087,7 @@ Formulas == [
   C06_CreditBounded |-> C06_CreditBounded,
   C05_CreditExact |-> C05_CreditExact, C05_BlockedOnlyWhenFull |-> C05_BlockedOnlyWhenFull,
   C05_WindowRestored |-> C05_WindowRestored,
+  C15_TransportContract |-> C15_TransportContract,
   C08_IdsIncreasing |-> C08_IdsIncreasing, C08_NewFirst |-> C08_NewFirst,
   C08_AtMostOneInvocation |-> C08_AtMostOneInvocation, C08_RightHandler |-> C08_RightHandler,
   C11_Revision |-> C11_Revision, C11_LegacyClean |-> C11_LegacyClean, C11_SettingsIff |-> C11_SettingsIff,
